@@ -126,6 +126,10 @@ func (s MyStr) String() string { return "<" + string(s) + ">" }
 func (s MyStr) Len() int      { return len(s) + 1 }
 func (u MyU8) String() string { return "u8" }
 
+// float types with methods fmt would call (a temperature that prints itself, a value that is an error)
+func (f MyF32) String() string { return "f32°" }
+func (f MyF64) Error() string  { return "f64 as error" }
+
 // NamedScalars maps a scalar kind name to its named variant.
 var NamedScalars = map[string]reflect.Type{
 	"string": reflect.TypeOf(MyStr("")), "int": reflect.TypeOf(MyInt(0)), "int8": reflect.TypeOf(MyI8(0)), "int32": reflect.TypeOf(MyI32(0)),
@@ -187,24 +191,43 @@ type EntsT struct {
 	ByKey map[string]DirT `valid:"exist"`
 }
 
+// Alias holds several pointers of one type under names that extend one another (Addr / Addr2,
+// F1 / F10, L / LX.Leaf): the same object may hang under two of them (shared, not cyclic).
+type Alias struct {
+	Addr  *Leaf
+	Addr2 *Leaf
+	F1    *Leaf
+	F10   *Leaf
+	L     *Leaf
+	LX    AliasIn
+	Name  string
+}
+
+type AliasIn struct {
+	Leaf *Leaf
+	Name string
+}
+
 // Time is a struct type of this package that happens to be NAMED like time.Time (a time of day).
 type Time struct {
 	Hour, Min int
 }
 
 var Types = map[string]reflect.Type{
-	"Time":  reflect.TypeOf(Time{}),
-	"DirT":   reflect.TypeOf(DirT{}),
-	"EntsT":  reflect.TypeOf(EntsT{}),
-	"Leaf":   reflect.TypeOf(Leaf{}),
-	"Mid":    reflect.TypeOf(Mid{}),
-	"Top":    reflect.TypeOf(Top{}),
-	"Tree":   reflect.TypeOf(Tree{}),
-	"Emb":    reflect.TypeOf(Emb{}),
-	"Multi":  reflect.TypeOf(Multi{}),
-	"Stamp":  reflect.TypeOf(Stamp{}),
-	"ItemA":  itemA(),
-	"Item2A": item2A(),
-	"Item2B": item2B(),
-	"ItemB":  itemB(),
+	"Time":    reflect.TypeOf(Time{}),
+	"Alias":   reflect.TypeOf(Alias{}),
+	"AliasIn": reflect.TypeOf(AliasIn{}),
+	"DirT":    reflect.TypeOf(DirT{}),
+	"EntsT":   reflect.TypeOf(EntsT{}),
+	"Leaf":    reflect.TypeOf(Leaf{}),
+	"Mid":     reflect.TypeOf(Mid{}),
+	"Top":     reflect.TypeOf(Top{}),
+	"Tree":    reflect.TypeOf(Tree{}),
+	"Emb":     reflect.TypeOf(Emb{}),
+	"Multi":   reflect.TypeOf(Multi{}),
+	"Stamp":   reflect.TypeOf(Stamp{}),
+	"ItemA":   itemA(),
+	"Item2A":  item2A(),
+	"Item2B":  item2B(),
+	"ItemB":   itemB(),
 }
